@@ -183,6 +183,13 @@ def rules(P, R, prefix="C02"):
                 for x, i in ordinal_keys(exits, lambda y: y["k"]):
                     ic = inner_cond(flow, x, walk["body"])
                     okx = any(implies(ic, cmp_formula("<=", at_ + ".round", "self.last_committed_round"))[0] for at_ in anc_terms)
+                    if not okx:
+                        # the loop condition written as a `break`: the walk cursor itself is at most one round above the watermark,
+                        # so its parent (a strictly lower round) is committed
+                        gpc = [y for y in ir.walk(walk["body"], into_closures=False) if y["k"] == "mcall" and GP in callee_paths(y)]
+                        cv = deref_var(gpc[0]["args"][0]) if len(gpc) == 1 else None
+                        if cv is not None:
+                            okx = implies(ic, Not(cmp_formula("<", "(1+self.last_committed_round)", ctx.term(cv) + ".round")))[0]
                     R.judge(okx, prefix + ".R2", key(cf, "ancestor walk stops only at an already committed ancestor" + tag, i), x["sp"], show(ic),
                             "the ancestor walk can stop under `%s`, which does not say that the ancestor just fetched is already committed: "
                             "older uncommitted ancestors are then never delivered" % show(ic))
